@@ -1,2 +1,26 @@
+"""Design-level check of the dynamic (character-level) scanner: XEarley.tla |= CharInLang (part of C01)."""
+from . import common as C
+
+CFG = '''SPECIFICATION Spec
+CONSTANTS
+  MaxRules = %d
+  MaxLen = %d
+  IgnoreAllLengths = %s
+INVARIANT AcceptIffCharInLang
+CHECK_DEADLOCK FALSE
+'''
+
+
 def run(ev, tier):
-    pass
+    R, L = (2, 3) if tier == 'quick' else (2, 4)
+    res = C.tlc('MC_XEarley', CFG % (R, L, 'TRUE'), timeout=3000)
+    C.tlc_must_run(res, 'MC_XEarley')
+    ev.add_tlc('MC_XEarley R=%d L=%d (dynamic and dynamic_complete scanner = character-level language)' % (R, L), res, 'design')
+    if not res.ok:
+        raise C.MachineryFailure('MC_XEarley: %s violated - the specification itself is wrong' % res.violated)
+    # model sensitivity: the pinned behaviour (ignored terminals skipped at their longest match only) must be refuted
+    r2 = C.tlc('MC_XEarley', CFG % (2, 3, 'FALSE'), timeout=600, workers=4)
+    C.tlc_must_run(r2, 'MC_XEarley pinned design')
+    ev.cov['binding_selftest']['model_refutes_longest_only_ignores_under_dynamic_complete'] = bool(r2.violated)
+    if not r2.violated:
+        raise C.MachineryFailure('MC_XEarley accepts the longest-only treatment of ignored terminals: the model is vacuous')
